@@ -796,7 +796,13 @@ def root(x, q):
     xs = x.shadow()
     if xs < 0 and q % 2 == 0:
         raise OutOfReach("even root of a quantity that is negative at the shadow point")
-    sh = Fraction(float(xs) ** (1.0 / q)) if xs >= 0 else -Fraction(float(-xs) ** (1.0 / q))
+    sh = None
+    if xs >= 0:
+        from .paths import _exact_root
+
+        sh = _exact_root(xs, q)  # exact when the radicand is a rational q-th power at the shadow point (degenerate states)
+    if sh is None:
+        sh = Fraction(float(xs) ** (1.0 / q)) if xs >= 0 else -Fraction(float(-xs) ** (1.0 / q))
     r = c.var(f"root{q}_{len(c.names)}", shadow=sh, kind="aux")
     vid = _vid(r)
     c.auxdef[vid] = ("root", (x, q))
